@@ -10,7 +10,13 @@ from pathlib import Path
 class Crate:
     def __init__(self, path: Path):
         self.file = path
-        self.j = json.loads(Path(path).read_text())
+        stem = Path(path).stem
+        if stem.startswith("x_"):
+            self.j, self.canon_log = json.loads(Path(path).read_text()), []
+        else:
+            import canon
+
+            self.j, self.canon_log = canon.canonicalise_text(Path(path).read_text(), stem)
         self.name = self.j["crate"]
         # items of #[cfg(test)] modules (present under the test-profile configuration) are not part of the library
         self.fns = [Fn(self, f) for f in self.j["fns"] if not is_test_path(f["path"])]
